@@ -96,7 +96,7 @@ def variant_of(header):
         return "filter" if w[4] != "0" else ("prio" if w[3] != "0" else "fcfs")
     if w[1] in ("buf", "bufedge"): return w[3]
     if w[1] == "prq": return ""
-    if w[1] == "slot": return "nonacc" if (len(w) >= 5 and w[4] == "0") else "acc"
+    if w[1] in ("slot", "cbelt"): return "nonacc" if (len(w) >= 5 and w[4] == "0") else "acc"
     return ""
 
 def rule_matches(krule, rule):
